@@ -869,6 +869,14 @@ def _build_unit(spec, repo=REPO):
             if n != int(f[3]):
                 raise Undecided("syntactic side condition of an assumed contract no longer holds: %s (found %d)" % (chk, n))
         g.dropped.append("checked: " + chk)
+    # a byte constant the specification names (vlit_<hex>() in a preamble, a contract or a postamble) is defined from its name even when
+    # no literal token of the code produces it any more: a changed format literal then fails the postcondition that names the
+    # old bytes instead of leaving the unit without a verdict
+    import re as _re2
+    _named = set(_re2.findall(r"\bvlit_([0-9a-f]+)\(\)", "".join(parts) + "".join(open(os.path.join(cdir, p_)).read() for p_ in spec["postamble"])))
+    for hx_ in _named:
+        if len(hx_) % 2 == 0 and hx_ not in rsx.FMT_LITS:
+            rsx.FMT_LITS[hx_] = bytes.fromhex(hx_)
     if rsx.FMT_LITS:
         # rule R9: the literal pieces of format strings as opaque named constants (generated from the literal tokens)
         have_ = "".join(parts)
